@@ -131,6 +131,23 @@ func (vetoPlugin) PostReadCallBody(ctx erpc.ReadCtx) *erpc.Status   { return vet
 func (vetoPlugin) PostReadPushHeader(ctx erpc.ReadCtx) *erpc.Status { return veto(ctx, "PostReadPushHeader") }
 func (vetoPlugin) PostReadPushBody(ctx erpc.ReadCtx) *erpc.Status   { return veto(ctx, "PostReadPushBody") }
 
+// write-stage hooks: a non-OK verdict or a panic there must not change the reply count either
+func writeStage(ctx erpc.WriteCtx, stage string) *erpc.Status {
+	rc, ok := ctx.(erpc.ReadCtx)
+	if !ok {
+		return nil
+	}
+	switch string(rc.PeekMeta("Wstage")) {
+	case stage + ":panic":
+		panic("c03 plugin panic at " + stage)
+	case stage + ":error":
+		return erpc.NewStatus(2001, "write-stage verdict at "+stage, "")
+	}
+	return nil
+}
+func (vetoPlugin) PreWriteReply(ctx erpc.WriteCtx) *erpc.Status  { return writeStage(ctx, "PreWriteReply") }
+func (vetoPlugin) PostWriteReply(ctx erpc.WriteCtx) *erpc.Status { return writeStage(ctx, "PostWriteReply") }
+
 type frame struct {
 	Kind  string `json:"kind"`
 	Seq   int32  `json:"seq"`
@@ -141,7 +158,8 @@ type frame struct {
 
 var callKinds = []string{"call-ok", "call-ok", "call-ok", "call-ctl", "call-typed", "call-status", "call-panic-string", "call-panic-error", "call-panic-status", "call-panic-nil",
 	"call-slow", "call-badresult", "call-bigresult", "call-unknown-route", "call-empty-route", "call-undecodable", "call-wrong-type", "call-unknown-codec",
-	"call-veto-PostReadCallHeader", "call-veto-PreReadCallBody", "call-veto-PostReadCallBody"}
+	"call-veto-PostReadCallHeader", "call-veto-PreReadCallBody", "call-veto-PostReadCallBody",
+	"call-wstage-PreWriteReply:panic", "call-wstage-PreWriteReply:error", "call-wstage-PostWriteReply:panic", "call-wstage-PostWriteReply:error"}
 var pushKinds = []string{"push-ok", "push-ok", "push-unknown-route", "push-panic", "push-veto-PostReadPushHeader", "push-veto-PostReadPushBody", "push-empty-route"}
 var otherKinds = []string{"reply-unknown-seq"}
 
@@ -167,6 +185,8 @@ func mkFrame(kind string, seq int32, rid string, p protos.P, routes map[string]s
 		s.Method, s.Codec, s.Body = routes["typed"], codec.ID_JSON, []byte(`{"tok":"t","pay":"p"}`)
 	case strings.HasPrefix(kind, "call-veto-"):
 		s.Meta = meta(rid, "", strings.TrimPrefix(kind, "call-veto-"))
+	case strings.HasPrefix(kind, "call-wstage-"):
+		s.Meta = append(meta(rid, "", ""), wire.KV{K: "Wstage", V: strings.TrimPrefix(kind, "call-wstage-")})
 	case kind == "call-unknown-route":
 		s.Method = "/nobody/home"
 	case kind == "call-empty-route":
